@@ -112,9 +112,14 @@ def corruptions(traces):
     return out
 
 
-def selftest(ctx, traces):
-    cases = corruptions(traces)
+def selftest(ctx, traces, val):
+    """corruptions of a trace that TLC accepted in this run must be rejected with the expected clause"""
+    touched = set(e["id"] for e in val.rejects + val.known)
+    cases = corruptions([t for t in traces if t["id"] not in touched])
     if not cases:
+        if touched:
+            ctx.note("corruption self-test skipped: no accepted lossless trace with a >= 2x2 table (this run has rejections)")
+            return 0
         ctx.machinery("no accepted lossless trace with a >= 2x2 table inside a section found for the corruption self-test")
     val = CT.validate(ctx, [v for _, v in cases], CLAUSES, name="corrupt")
     got = {r["id"]: r["clause"] for r in val.rejects}
@@ -129,7 +134,7 @@ def run(ctx):
     traces = CT.record_all(ctx, inputs)
     val = CT.validate(ctx, traces, CLAUSES)
     report(ctx, val)
-    n = selftest(ctx, traces)
+    n = selftest(ctx, traces, val)
     lossless = [t for t in traces if t["lossless"] and t["snaps"]]
     big = sum(1 for t in lossless if any(c == "Table" for c in t["snaps"][0]["cls"]))
     shared.evidence(ctx, inputs, gen_stats, traces, val, "C07 clauses apply to the %d traces inside the lossless domain." % len(lossless),
